@@ -358,6 +358,14 @@ def c03(ctx):
             dict(configs="CfgC03two", conns=2, f1=S("notls", "close"), tlsr=S("proceed"), certs=S("valid"), f2=S("mech"),
                  authr=S("success", "failure", "close"), f3=S("bm", "close"), resr=S("resumed", "failed", "other", "unknownel", "close"), bindr=S("result", "error", "close"),
                  sessr=S("result"), enr=S("enabled", "failed", "close"))]
+    if not q:
+        # three attempts on one client object, failures in between; optional legacy session with and without stream management
+        gens.append(dict(configs="CfgC03two", conns=3, f1=S("notls", "close"), tlsr=S("proceed"), certs=S("valid"), f2=S("mech"),
+                         authr=S("success", "failure", "close"), f3=S("bm", "close"), resr=S("resumed", "failed", "close"), bindr=S("result", "error"),
+                         sessr=S("result"), enr=S("enabled", "failed")))
+        gens.append(dict(configs="CfgC03", conns=1, f1=S("tls", "tlsreq", "notls"), tlsr=S("proceed", "failure"), certs=S("valid", "wronghost", "expired"),
+                         f2=S("mech", "close"), authr=S("success", "failuretext"), f3=S("bo", "bom", "bs", "bsm"), resr=S("resumed"),
+                         bindr=S("result", "error"), sessr=S("result", "error", "close"), enr=S("enabled", "enablednoresume", "failed")))
     # the same alphabets over the WebSocket transport (no STARTTLS stages; wss: with the certificate checked by the dial)
     gens.append(dict(configs="CfgC03ws", conns=1, f1=S("notls", "bad", "close", "other"), tlsr=S("proceed"), certs=S("valid", "untrusted"), f2=S("mech"),
                      authr=S("success", "failure", "other", "garbage", "close"), f3=S("b", "bs", "bm", "close"), resr=S("resumed"),
@@ -388,14 +396,14 @@ def c04(ctx):
 def c11(ctx):
     q = ctx.tier == "quick"
     base = dict(f1=S("notls"), tlsr=S("proceed"), certs=S("valid"), f2=S("mech"), authr=S("success"), bindr=S("result"), sessr=S("result"))
-    gens = [dict(configs="CfgC11", conns=3, f3=S("bm", "b"), resr=S("resumed", "resumedother", "failed", "faileditem", "other", "unknownel", "close"),
+    gens = [dict(configs="CfgC11", conns=3, f3=S("bm", "b"), resr=S("resumed", "resumedother", "failed", "faileditem", "failedcond", "other", "unknownel", "close"),
                  enr=S("enabled", "enablednoresume"), **base)]
     if not q:
         gens.append(dict(configs="CfgC11b", conns=4, f3=S("bm", "b"), resr=S("resumed", "resumedother", "failed", "other"),
                          enr=S("enabled", "enablednoresume", "failed"), **base))
     gens.append(dict(configs="CfgC11ws", conns=2 if q else 3, f3=S("bm", "b"), resr=S("resumed", "resumedother", "failed", "faileditem", "close"),
                      enr=S("enabled", "enablednoresume"), **base))
-    ctx.notes["bounds"] = "all histories of %d connections on one client (Connect and Resume as reconnect entry points), stream management advertised or not on each, <enabled> with/without resumption, every reply to <resume/> {resumed same id, other id, failed, failed+item-not-found, unexpected, closed}, 0..2 stanzas received per session" % (3 if q else 4)
+    ctx.notes["bounds"] = "all histories of %d connections on one client (Connect and Resume as reconnect entry points), stream management advertised or not on each, <enabled> with/without resumption, every reply to <resume/> {resumed same id, other id, failed, failed+item-not-found, failed with each of 29 conditions and a text, unexpected, closed}, 0..2 stanzas received per session" % (3 if q else 4)
     neg_check(ctx, gens)
 
 
